@@ -1,4 +1,4 @@
-open Conv
+open Cnv
 module L = Stdlib.List
 let () =
   let (tr, _) = Tracep.parse_file Sys.argv.(1) in
